@@ -3,6 +3,7 @@ package rules
 import (
 	"fmt"
 	"go/token"
+	"go/types"
 	"strings"
 
 	"golang.org/x/tools/go/ssa"
@@ -91,11 +92,34 @@ func runC19(c *core.Ctx) {
 // the losing dialler's close evicts the winner's entry).
 func poolLifetime(c *core.Ctx) {
 	const rule = "C19.pool-lifetime"
-	poll := fld(c, "bus/session", "Session", "poll")
+	_, poll := fldNested(c, "bus/session", "Session", "poll", "")
 	clientFn := c.Func("bus/session", "Session", "client")
 	if poll == nil || clientFn == nil {
 		c.Undecided(rule, "bus/session.Session", token.NoPos, "anchor not found")
 		return
+	}
+	// partOfTerminate: Terminate, or a private helper that only runs as part of it
+	sites, _ := c.CallSites()
+	var partOfTerminate func(f *ssa.Function, depth int) bool
+	partOfTerminate = func(f *ssa.Function, depth int) bool {
+		for f.Parent() != nil {
+			f = f.Parent()
+		}
+		if f.Name() == "Terminate" {
+			return true
+		}
+		if depth > 3 || !isPrivateHelper(c, f) || len(sites[f]) == 0 {
+			return false
+		}
+		for _, cs := range sites[f] {
+			if _, isGo := cs.(*ssa.Go); isGo {
+				return false
+			}
+			if !partOfTerminate(cs.Parent(), depth+1) {
+				return false
+			}
+		}
+		return true
 	}
 	n := 0
 	for _, fn := range srcFuncsOfPkg(c, "bus/session") {
@@ -111,7 +135,7 @@ func poolLifetime(c *core.Ctx) {
 				root = root.Parent()
 			}
 			switch {
-			case root.Name() == "Terminate":
+			case root.Name() == "Terminate" || partOfTerminate(fn, 0):
 				c.Pass(rule, key, call.Pos(), "Terminate closes the pool")
 			case fn == clientFn:
 				// the endpoint closed is the one of the channel just dialled (SelectEndPoint result)
@@ -132,8 +156,21 @@ func poolLifetime(c *core.Ctx) {
 	if n < 2 {
 		c.Undecided(rule, "EndPoint.Close", token.NoPos, "expected Close sites in Terminate and client not found")
 	}
-	// evicting handlers only after the insert
-	ups, _ := mapWrites(clientFn, poll)
+	// evicting handlers only after the insert (the insert, and the delete of the
+	// closer, may live in private helpers)
+	var ups []ssa.Instruction
+	for _, up := range mapWritesUp(clientFn, poll) {
+		ups = append(ups, up)
+	}
+	for _, call := range core.Calls(clientFn) {
+		if h := core.StaticCallee(call); h != nil && isPrivateHelper(c, h) {
+			for _, u := range unitOf(c, h) {
+				if len(mapWritesUp(u, poll)) > 0 {
+					ups = append(ups, call.(ssa.Instruction))
+				}
+			}
+		}
+	}
 	for i, call := range core.Calls(clientFn) {
 		cc := call.Common()
 		if !(cc.IsInvoke() && (cc.Method.Name() == "AddHandler" || cc.Method.Name() == "MakeHandler")) || len(cc.Args) != 3 {
@@ -143,8 +180,12 @@ func poolLifetime(c *core.Ctx) {
 		if cl == nil {
 			continue
 		}
-		_, dels := mapWrites(cl, poll)
-		if len(dels) == 0 {
+		nDels := 0
+		for _, u := range unitOf(c, cl) {
+			_, dels := mapWrites(u, poll)
+			nDels += len(dels)
+		}
+		if nDels == 0 {
 			continue
 		}
 		key := fmt.Sprintf("evicting-handler@%s#%d", core.FuncKey(clientFn), i)
@@ -158,129 +199,61 @@ func poolLifetime(c *core.Ctx) {
 	}
 }
 
-// singleInsert: E2 on Session.client.
+// singleInsert: E2 on the connection pool: the insert (in Session.client, or in
+// a private helper it calls) only follows a failed lookup of the same key made
+// under the same continuously held exclusive lock; where the endpoint is
+// already pooled the fresh connection is closed and the pooled client returned.
 func singleInsert(c *core.Ctx, lc *core.LockCache) {
 	const rule = "C19.single-insert"
-	fn := c.Func("bus/session", "Session", "client")
-	poll := fld(c, "bus/session", "Session", "poll")
-	if fn == nil || poll == nil {
+	clientFn := c.Func("bus/session", "Session", "client")
+	owner, poll := fldNested(c, "bus/session", "Session", "poll", "")
+	if clientFn == nil || poll == nil {
 		c.Undecided(rule, "bus/session.Session.client", token.NoPos, "anchor not found")
 		return
 	}
 	class := core.LockClass{Owner: "bus/session.Session", Field: "pollMutex"}
-	if st := strct(c, "bus/session", "Session"); st != nil && poll != nil {
-		if cl, ok := guardOf(c, lc, "bus/session", st, poll, "pollMutex"); ok {
-			class = cl
-		}
+	if cl, ok := guardOf(c, lc, "bus/session", owner, poll, "pollMutex"); ok {
+		class = cl
 	}
-	lf := lc.Get(fn)
 	isPoll := func(v ssa.Value) bool {
 		p := core.AccessPath(v)
 		return len(p.Fields) > 0 && p.Fields[len(p.Fields)-1] == poll
 	}
-	var updates []*ssa.MapUpdate
-	var lookups []*ssa.Lookup
-	for _, b := range fn.Blocks {
-		for _, in := range b.Instrs {
-			switch x := in.(type) {
-			case *ssa.MapUpdate:
-				if isPoll(x.Map) {
-					updates = append(updates, x)
-				}
-			case *ssa.Lookup:
-				if isPoll(x.X) && x.CommaOk {
-					lookups = append(lookups, x)
-				}
-			}
-		}
-	}
-	if len(updates) == 0 {
-		c.Undecided(rule, "bus/session.Session.client/store", fn.Pos(), "no store into Session.poll found")
-		return
-	}
-	for i, up := range updates {
-		key := fmt.Sprintf("bus/session.Session.client/store#%d", i+1)
-		// find a lookup with the same key whose !ok edge guards the store
-		var witness *ssa.Lookup
-		for _, lk := range lookups {
-			if !core.SameValue(lk.Index, up.Key) {
-				continue
-			}
-			okOf := func(v ssa.Value) bool {
-				e, ok := core.Strip(v).(*ssa.Extract)
-				return ok && e.Tuple == lk && e.Index == 1
-			}
-			if !core.Guarded(fn, up, core.IsFalse(okOf)) {
-				continue
-			}
-			if h, _ := lf.HeldAt(lk, class, true); !h {
-				continue
-			}
-			// lock continuously held between the lookup and the store
-			broken := false
-			for _, call := range core.Calls(fn) {
-				op, ok := core.LockOpOf(call)
-				if !ok || op.Class != class || (op.Kind != core.OpUnlock && op.Kind != core.OpRUnlock) {
-					continue
-				}
-				u := call.(ssa.Instruction)
-				fromLookup := core.ReachFrom(core.After(lk), func(in ssa.Instruction) bool { return in == ssa.Instruction(up) }, nil)
-				if !fromLookup.Has(u) {
-					continue
-				}
-				toStore := core.ReachFrom(core.After(u), func(in ssa.Instruction) bool { return in == ssa.Instruction(lk) }, nil)
-				if toStore.Has(up) {
-					broken = true
-				}
-			}
-			if broken {
-				continue
-			}
-			witness = lk
-			break
-		}
-		if witness == nil {
-			c.Fail(rule, key, up.Pos(), "store into Session.poll is not guarded by a failed lookup of the same key made under the same continuously-held pollMutex.Lock(): two concurrent dialers can both insert, leaving two connections to one endpoint")
-			continue
-		}
-		if h, _ := lf.HeldAt(up, class, true); !h {
-			c.Fail(rule, key, up.Pos(), "store into Session.poll without pollMutex held exclusively")
-			continue
-		}
-		c.Pass(rule, key, up.Pos(), "guarded by !ok of the lookup at "+c.Pos(witness.Pos())+" under pollMutex.Lock()")
-
-		// the duplicate branch: close the new endpoint, return the existing client
-		okOf := func(v ssa.Value) bool {
-			e, ok := core.Strip(v).(*ssa.Extract)
-			return ok && e.Tuple == witness && e.Index == 1
-		}
-		dupKey := fmt.Sprintf("bus/session.Session.client/duplicate#%d", i+1)
+	// dupBranch: in fn, on the branch selected by onDup (the endpoint is already
+	// pooled), every return hands back the pooled client and, if wantClose, has
+	// closed the connection just dialled
+	dupBranch := func(fn *ssa.Function, onDup core.EdgeMatcher, isPooled func(ssa.Value) bool, dom ssa.Instruction, wantClose bool) (bool, string, token.Pos) {
+		cutDup := core.ReachEntry(fn, nil, core.CutEstablishing(onDup))
 		var dupReturns []*ssa.Return
-		reachDup := core.ReachEntry(fn, nil, core.CutEstablishing(core.IsFalse(okOf)))
-		_ = reachDup
-		// returns reachable only through the ok==true edge: those not reachable when that edge is cut
-		cutTrue := core.ReachEntry(fn, nil, core.CutEstablishing(core.IsTrue(okOf)))
 		for _, r := range core.Returns(fn) {
-			if !cutTrue.Has(r) && core.PointOf(witness).B.Dominates(r.Block()) {
+			if !cutDup.Has(r) && core.PointOf(dom).B.Dominates(r.Block()) {
 				dupReturns = append(dupReturns, r)
 			}
 		}
 		if len(dupReturns) == 0 {
-			c.Fail(rule, dupKey, witness.Pos(), "no return on the branch where the endpoint is already in the pool")
-			continue
+			return false, "no return on the branch where the endpoint is already in the pool", dom.Pos()
 		}
-		good := true
-		why := ""
 		for _, r := range dupReturns {
 			if len(r.Results) < 1 {
-				good = false
-				why = "return without a client"
-				continue
+				return false, "return without a client", r.Pos()
 			}
-			e, ok := core.Canon(core.RetVal(r, 0)).(*ssa.Extract)
-			if !ok || e.Tuple != witness || e.Index != 0 {
-				good = false
-				why = "the duplicate branch does not return the client already in the pool"
+			rv := core.Canon(core.RetVal(r, 0))
+			pooled := isPooled(rv)
+			if ld, isLoad := rv.(*ssa.UnOp); !pooled && isLoad {
+				// a result variable assigned on several branches: what it holds here
+				sts := core.ReachingStores(ld)
+				pooled = len(sts) > 0
+				for _, st := range sts {
+					if !isPooled(core.Canon(st.Val)) {
+						pooled = false
+					}
+				}
+			}
+			if !pooled {
+				return false, "the duplicate branch does not return the client already in the pool", r.Pos()
+			}
+			if !wantClose {
+				continue
 			}
 			closes := core.MustPassBefore(fn, r, func(in ssa.Instruction) bool {
 				call, ok := in.(*ssa.Call)
@@ -288,17 +261,191 @@ func singleInsert(c *core.Ctx, lc *core.LockCache) {
 					return false
 				}
 				_, m := core.InvokeName(call)
-				if m != "Close" {
-					return false
-				}
 				// only count a Close that lies on the duplicate branch
-				return !cutTrue.Has(in)
+				return m == "Close" && !cutDup.Has(in)
 			})
 			if !closes {
-				good = false
-				why = "the freshly dialled endpoint is not closed on the duplicate branch (connection leak: more than one connection per endpoint)"
+				return false, "the freshly dialled endpoint is not closed on the duplicate branch (connection leak: more than one connection per endpoint)", r.Pos()
 			}
 		}
-		c.Check(good, rule, dupKey, dupReturns[0].Pos(), "duplicate branch closes the new endpoint and returns the pooled client", why)
+		return true, "", dupReturns[0].Pos()
 	}
+	nStores := 0
+	for _, fn := range srcFuncsOfPkg(c, "bus/session") {
+		lf := lc.Get(fn)
+		var updates []*ssa.MapUpdate
+		var lookups []*ssa.Lookup
+		for _, b := range fn.Blocks {
+			for _, in := range b.Instrs {
+				switch x := in.(type) {
+				case *ssa.MapUpdate:
+					if isPoll(x.Map) {
+						updates = append(updates, x)
+					}
+				case *ssa.Lookup:
+					if isPoll(x.X) && x.CommaOk {
+						lookups = append(lookups, x)
+					}
+				}
+			}
+		}
+		for i, up := range updates {
+			nStores++
+			key := fmt.Sprintf("bus/session.Session.client/store#%d", i+1)
+			dupKey := fmt.Sprintf("bus/session.Session.client/duplicate#%d", i+1)
+			if fn != clientFn {
+				key = fmt.Sprintf("%s/store#%d", core.FuncKey(fn), i+1)
+				dupKey = fmt.Sprintf("%s/duplicate#%d", core.FuncKey(fn), i+1)
+			}
+			// find a lookup with the same key whose !ok edge guards the store
+			var witness *ssa.Lookup
+			for _, lk := range lookups {
+				if !core.SameValue(lk.Index, up.Key) {
+					continue
+				}
+				okOf := func(v ssa.Value) bool {
+					e, ok := core.Strip(core.ResolveLoad(core.Canon(v))).(*ssa.Extract)
+					return ok && e.Tuple == lk && e.Index == 1
+				}
+				if !core.Guarded(fn, up, core.IsFalse(okOf)) {
+					continue
+				}
+				if h, _ := lf.HeldAt(lk, class, true); !h {
+					continue
+				}
+				// lock continuously held between the lookup and the store
+				broken := false
+				for _, call := range core.Calls(fn) {
+					op, ok := core.LockOpOf(call)
+					if !ok || op.Class != class || (op.Kind != core.OpUnlock && op.Kind != core.OpRUnlock) {
+						continue
+					}
+					if _, isDefer := call.(*ssa.Defer); isDefer {
+						continue
+					}
+					u := call.(ssa.Instruction)
+					fromLookup := core.ReachFrom(core.After(lk), func(in ssa.Instruction) bool { return in == ssa.Instruction(up) }, nil)
+					if !fromLookup.Has(u) {
+						continue
+					}
+					toStore := core.ReachFrom(core.After(u), func(in ssa.Instruction) bool { return in == ssa.Instruction(lk) }, nil)
+					if toStore.Has(up) {
+						broken = true
+					}
+				}
+				if broken {
+					continue
+				}
+				witness = lk
+				break
+			}
+			if witness == nil {
+				c.Fail(rule, key, up.Pos(), "store into Session.poll is not guarded by a failed lookup of the same key made under the same continuously-held pollMutex.Lock(): two concurrent dialers can both insert, leaving two connections to one endpoint")
+				continue
+			}
+			if h, _ := lf.HeldAt(up, class, true); !h {
+				c.Fail(rule, key, up.Pos(), "store into Session.poll without pollMutex held exclusively")
+				continue
+			}
+			c.Pass(rule, key, up.Pos(), "guarded by !ok of the lookup at "+c.Pos(witness.Pos())+" under pollMutex.Lock()")
+
+			// the duplicate branch: close the new endpoint, return the existing client
+			okOf := func(v ssa.Value) bool {
+				e, ok := core.Strip(core.ResolveLoad(core.Canon(v))).(*ssa.Extract)
+				return ok && e.Tuple == witness && e.Index == 1
+			}
+			isFound := func(v ssa.Value) bool {
+				e, ok := v.(*ssa.Extract)
+				return ok && e.Tuple == witness && e.Index == 0
+			}
+			if fn == clientFn {
+				good, why, pos := dupBranch(fn, core.IsTrue(okOf), isFound, witness, true)
+				c.Check(good, rule, dupKey, pos, "duplicate branch closes the new endpoint and returns the pooled client", why)
+				continue
+			}
+			// the insert lives in a helper: it returns the pooled client with a flag
+			// telling the two outcomes apart; Session.client closes the fresh
+			// connection and returns that client where the flag says "already pooled"
+			good, why, pos := dupBranch(fn, core.IsTrue(okOf), isFound, witness, false)
+			if !good {
+				c.Fail(rule, dupKey, pos, why)
+				continue
+			}
+			bi, dupVal, okFlag := outcomeFlag(fn, core.IsTrue(okOf))
+			if !isPrivateHelper(c, fn) || !okFlag {
+				c.Fail(rule, dupKey, pos, "the function that inserts into the pool does not tell its caller whether the endpoint was already pooled: the fresh connection cannot be closed (more than one connection per endpoint)")
+				continue
+			}
+			nSites := 0
+			for _, cs := range core.Calls(clientFn) {
+				cv, isCall := cs.(*ssa.Call)
+				if !isCall || core.StaticCallee(cs) != fn {
+					continue
+				}
+				nSites++
+				isFlag := func(v ssa.Value) bool {
+					e, ok := core.Strip(v).(*ssa.Extract)
+					return ok && e.Tuple == ssa.Value(cv) && e.Index == bi
+				}
+				isRes := func(v ssa.Value) bool {
+					e, ok := v.(*ssa.Extract)
+					return ok && e.Tuple == ssa.Value(cv) && e.Index == 0
+				}
+				m := core.IsFalse(isFlag)
+				if dupVal {
+					m = core.IsTrue(isFlag)
+				}
+				good, why, pos := dupBranch(clientFn, m, isRes, cv, true)
+				c.Check(good, rule, dupKey, pos, "duplicate branch closes the new endpoint and returns the pooled client", why)
+			}
+			if nSites == 0 {
+				c.Fail(rule, dupKey, pos, "the pool is filled by a function Session.client does not call")
+			}
+		}
+	}
+	if nStores == 0 {
+		c.Undecided(rule, "bus/session.Session.client/store", clientFn.Pos(), "no store into Session.poll found")
+	}
+}
+
+// outcomeFlag: fn has a boolean result that is one constant on every return of
+// the branch selected by onDup and the other constant on every other return
+// that yields a client: its index and the value on the selected branch.
+func outcomeFlag(fn *ssa.Function, onDup core.EdgeMatcher) (int, bool, bool) {
+	res := fn.Signature.Results()
+	cut := core.ReachEntry(fn, nil, core.CutEstablishing(onDup))
+	for bi := 0; bi < res.Len(); bi++ {
+		if b, ok := res.At(bi).Type().Underlying().(*types.Basic); !ok || b.Kind() != types.Bool {
+			continue
+		}
+		var dupVal, otherVal *bool
+		good := true
+		for _, r := range core.Returns(fn) {
+			v, isConst := core.ConstBool(core.RetVal(r, bi))
+			if !isConst {
+				good = false
+				break
+			}
+			slot := &otherVal
+			if !cut.Has(r) {
+				slot = &dupVal
+			}
+			if *slot == nil {
+				vv := v
+				*slot = &vv
+			} else if **slot != v {
+				good = false
+			}
+		}
+		if good && dupVal != nil && otherVal != nil && *dupVal != *otherVal {
+			return bi, *dupVal, true
+		}
+	}
+	return 0, false, false
+}
+
+// mapWritesUp: the map updates of fn into field fld.
+func mapWritesUp(fn *ssa.Function, fld *types.Var) []*ssa.MapUpdate {
+	ups, _ := mapWrites(fn, fld)
+	return ups
 }
